@@ -47,7 +47,7 @@ func runC05(e *Env) {
 	ruleDeleg(e, "C05.deleg", "uu")
 	e.S.Floor("C05.deleg", 12)
 	e.S.Floor("C05.layout", 12)
-	e.S.Floor("C05.nib", 7)
+	e.S.Floor("C05.nib", 13)
 	e.S.Floor("C05.digit", 6)
 	e.S.Floor("C05.strict", 8)
 	e.S.Floor("C05.ver", 9)
@@ -1063,6 +1063,10 @@ func ruleC05Sem(e *Env, rule string) {
 		{"URN layout", 45, 9, 0, "urn:uuid:"},
 		{"URN layout [upper-case digits disabled]", 45, 9, upBit, "urn:uuid:"},
 		{"URN layout [URN:]", 45, 9, 0, "URN:uuid:"},
+	}
+	// the parser accepts the three letters in either case, each on its own: every mixed spelling is a reading too
+	for _, pfx := range []string{"Urn", "uRn", "urN", "URn", "UrN", "uRN"} {
+		lays = append(lays, layT{"URN layout [" + pfx + ":]", 45, 9, 0, pfx + ":uuid:"})
 	}
 	for _, lay := range lays {
 		prefix := lay.prefix
